@@ -31,7 +31,7 @@ Expected(e) ==
     [] e.op = "clear"    -> Inf
     [] e.op = "pfx"      -> PointsForX(e.k)
 
-TInit == /\ TLCSet(1, {})
+TInit == /\ TLCSet(1, {}) /\ TLCSet(2, [i \in 1..Len(Traces) |-> 0])
          /\ tid \in 1..Len(Traces) /\ l = 1
          /\ pt = [i \in 1..R |-> Inf]
 TStep == /\ l <= Len(Ev)
@@ -40,6 +40,10 @@ TStep == /\ l <= Len(Ev)
          /\ l' = l + 1 /\ UNCHANGED tid
 TSpec == TInit /\ [][TStep]_tvars
 
-Reached == IF l = Len(Ev) + 1 THEN TLCSet(1, TLCGet(1) \cup {tid}) ELSE TRUE
-Post == PrintT(ToJson([k |-> "rejected", n |-> Len(Traces), ids |-> (1..Len(Traces)) \ TLCGet(1)]))
+\* register 1: traces matched to their end; register 2: per trace, the number of events matched (reported for rejected traces)
+Reached == /\ TLCSet(2, [TLCGet(2) EXCEPT ![tid] = IF @ < l - 1 THEN l - 1 ELSE @])
+           /\ IF l = Len(Ev) + 1 THEN TLCSet(1, TLCGet(1) \cup {tid}) ELSE TRUE
+Post == LET rej == (1..Len(Traces)) \ TLCGet(1) IN
+        PrintT(ToJson([k |-> "rejected", n |-> Len(Traces), ids |-> rej,
+                       matched |-> [i \in 1..Len(Traces) |-> IF i \in rej THEN TLCGet(2)[i] ELSE 0 - 1]]))
 =============================================================================
